@@ -36,6 +36,17 @@ def large_cases(which):
         out.append({'A': A, 'B': None, 'a_names': None, 'b_names': None, 'q': q})
         q = {'type': 'select', 'items': [{'k': 'expr', 'e': _f('a', 1)}], 'join': None, 'distinct': 'distinct', 'top': {'n': 90, 'form': 'TOP'}}
         out.append({'A': A, 'B': None, 'a_names': None, 'b_names': None, 'q': q})
+        # sort, then dedup, then truncate - with thousands of duplicates in front of the bound (all three features together)
+        for desc in (False, True):
+            for distinct in ('distinct', 'count'):
+                for n_top in (3, 5):
+                    q = {'type': 'select', 'items': [{'k': 'expr', 'e': _f('a', 0)}], 'join': None, 'distinct': distinct,
+                         'order': {'keys': [qgen.mk("(a1 or '')", "(a1 || '')", 'str')], 'desc': desc, 'asc_kw': False}, 'top': {'n': n_top, 'form': 'LIMIT' if desc else 'TOP'}}
+                    out.append({'A': A, 'B': None, 'a_names': None, 'b_names': None, 'q': q})
+        q = {'type': 'select', 'items': [{'k': 'expr', 'e': _f('a', 1)}, {'k': 'expr', 'e': _f('a', 0)}], 'join': None, 'distinct': 'distinct',
+             'order': {'keys': [qgen.mk('int(a2) % 13', 'parseInt(a2) % 13', 'int'), qgen.mk("(a1 or '')", "(a1 || '')", 'str')], 'desc': False, 'asc_kw': False}, 'top': {'n': 40, 'form': 'TOP'},
+             'where': qgen.mk('NR % 2', 'NR % 2', 'int')}
+        out.append({'A': A, 'B': None, 'a_names': None, 'b_names': None, 'q': q})
     elif which == 'agg':
         q = {'type': 'select', 'items': [{'k': 'expr', 'e': _f('a', 0)}, {'k': 'agg', 'fn': 'COUNT', 'sp': 'COUNT', 'star': True, 'startext': '*'}, {'k': 'agg', 'fn': 'SUM', 'sp': 'SUM', 'e': _f('a', 1)},
                                          {'k': 'agg', 'fn': 'MEDIAN', 'sp': 'median', 'e': _f('a', 1)}, {'k': 'agg', 'fn': 'VARIANCE', 'sp': 'VARIANCE', 'e': qgen.mk('int(a2) * 1000', None, 'int')},
